@@ -182,6 +182,14 @@ def gen_label(seed: int, n: int) -> List[Dict[str, Any]]:
             sched.append(_cron(sid, rng) if rng.random() < 0.4 else _once(sid, rng, start, horizon))
         for sp in sched:
             sp["cancel"] = False
+        onces = [sp for sp in sched if sp["kind"] != "cron"]
+        if len(onces) >= 2 and rng.random() < 0.5:
+            # entries of ONE task, some with the very same target time (they differ in arguments only)
+            for sp in onces:
+                sp["ltask"] = onces[0]["sid"]
+            if rng.random() < 0.7:
+                onces[1]["T"] = onces[0]["T"]
+                onces[1]["naive"] = onces[0].get("naive", False)
         npolls = horizon // MIN + 1
         out.append({"cfg": {"start": start, "horizon": horizon,
                             "srcs": [{"label": True, "pre": "", "post": "sync", "removes": True, "sched": sched,
